@@ -19,8 +19,14 @@ struct SemState { long count = 0; std::vector<int> waiters; };
 
 static std::vector<Task*> g_tasks;
 static int g_cur = -1;
-static Rng g_rng(1);
+static Rng g_rng(1), g_rng_bb(2), g_rng_wake(3);
 static SchedPolicy g_pol;
+static std::vector<SchedEntry> g_trace;            // what this run did
+static std::vector<SchedEntry> g_script;           // what this run must do (scripted mode)
+static bool g_scripted = false;
+static FILE* g_dbg = nullptr; static int64_t g_dbg_lo = 1, g_dbg_hi = 0;
+static size_t g_script_vol = 0; static int64_t g_forced_n = 0, g_wake_n = 0;
+static std::map<int64_t, int> g_script_vol_at, g_script_forced, g_script_wake;
 static SchedStats g_stats;
 static sem_t g_main_sem;
 static bool g_active = false;
@@ -47,6 +53,22 @@ static Task* pick(const std::vector<Task*>& c) {
   }
 }
 
+// the running task cannot continue (blocked / finished): who gets the baton
+static Task* pick_forced(const std::vector<Task*>& c) {
+  if (c.empty()) return nullptr;
+  Task* t = nullptr; int64_t n = g_forced_n++;
+  if (g_scripted) { auto it = g_script_forced.find(n); if (it != g_script_forced.end()) for (auto x : c) if (x->id == it->second) t = x; if (!t) t = c[0]; }
+  else t = pick(c);
+  g_trace.push_back({1, n, t->id});
+  return t;
+}
+static size_t pick_waiter(size_t n_waiters) {
+  int64_t n = g_wake_n++; size_t k;
+  if (g_scripted) { auto it = g_script_wake.find(n); k = (it != g_script_wake.end() && (size_t) it->second < n_waiters) ? (size_t) it->second : 0; }
+  else k = g_rng_wake.below(n_waiters);
+  g_trace.push_back({2, n, (int) k});
+  return k;
+}
 static void park_forever() { for (;;) pause(); }
 
 static void fail_run(SchedStatus st, const std::string& info) {
@@ -81,14 +103,14 @@ static Task* wake_timed_or_deadlock() {
 
 static void block_self(Task* self, void* obj, int kind, int64_t deadline_ns) {
   self->state = T_BLOCKED; self->wait_obj = obj; self->wait_kind = kind; self->deadline_ns = deadline_ns; self->timed_out = false;
-  Task* next = pick(runnable());
+  Task* next = pick_forced(runnable());
   if (!next) next = wake_timed_or_deadlock();
   if (!next) fail_run(SCHED_DEADLOCK, "no runnable task");
   if (next != self) switch_to(self, next, kind);
   self->state = T_RUNNABLE; self->wait_obj = nullptr; self->deadline_ns = -1;
 }
 
-static int64_t draw_bb() { return 1 + (int64_t) g_rng.below((uint64_t) (2 * g_pol.bb_mean)); }
+static int64_t draw_bb() { return 1 + (int64_t) g_rng_bb.below((uint64_t) (2 * g_pol.bb_mean)); }
 
 static bool is_sync_kind(int k) { return k == YK_MUTEX || k == YK_SIGNAL || k == YK_SEM || k == YK_THREAD || k == YK_FILE || k == YK_CALLBACK || k == YK_ITER || k == YK_PRINT || k == YK_DIR || k == YK_CLOCK; }
 
@@ -97,8 +119,14 @@ void sched_yield(int kind, const void* site) {
   if (!g_active || !self || self->in_sched) return;
   self->in_sched = true;
   g_stats.yields_by_kind[kind & 15]++;
+  if (g_dbg) fprintf(g_dbg, "%lld t%d k%d bb=%llu %s\n", (long long) g_stats.decisions, self->id, kind, (unsigned long long) g_bb_count, (kind == YK_ALLOC || kind == YK_FREE || kind == YK_BB) ? sim_symbolize((void*) site).c_str() : "");
   if (++g_stats.decisions > g_pol.max_steps) fail_run(SCHED_BUDGET, "step budget exhausted");
   bool want = false;
+  if (g_scripted) {
+    auto it = g_script_vol_at.find(g_stats.decisions);
+    if (it != g_script_vol_at.end()) { Task* next = nullptr; for (auto t : g_tasks) if (t->id == it->second && t->state == T_RUNNABLE) next = t; if (next && next != self) { g_trace.push_back({0, g_stats.decisions, next->id}); switch_to(self, next, kind); } }
+    self->in_sched = false; return;
+  }
   if (g_pol.kind == 0) { int den = g_pol.switch_den[kind & 15]; want = den > 0 && g_rng.below(den) == 0; }
   else if (g_pol.kind == 1) {
     if (kind == YK_BB) { if (g_bb_change_points.count(++g_bb_decisions)) { self->prio = -(int) g_bb_decisions; want = true; } }
@@ -108,13 +136,14 @@ void sched_yield(int kind, const void* site) {
   if (want) {
     std::vector<Task*> c = runnable(g_pol.kind == 1 ? nullptr : self);
     Task* next = pick(c);
-    if (next && next != self) switch_to(self, next, kind);
+    if (next && next != self) { g_trace.push_back({0, g_stats.decisions, next->id}); switch_to(self, next, kind); }
   }
   self->in_sched = false;
 }
 
 static void bb_hook(const void* pc) {
   Task* t = t_self; if (!t || t->in_sched) return;
+  if (g_dbg && g_stats.decisions >= g_dbg_lo && g_stats.decisions <= g_dbg_hi) fprintf(g_dbg, "   bb t%d %p %s\n", t->id, pc, sim_symbolize((void*) pc).c_str());
   if (--t->bb_countdown > 0) return;
   t->bb_countdown = draw_bb();
   sched_yield(YK_BB, pc);
@@ -128,7 +157,7 @@ static void* trampoline(void* arg) {
   self->in_sched = true;
   self->state = T_DONE;
   for (auto t : g_tasks) if (t->state == T_BLOCKED && t->wait_kind == YK_THREAD && t->wait_obj == (void*) self) t->state = T_RUNNABLE;
-  Task* next = pick(runnable());
+  Task* next = pick_forced(runnable());
   if (!next) next = wake_timed_or_deadlock();
   if (next) { g_stats.switches++; hash_event(self->id, next->id, YK_THREAD); if (g_on_switch) g_on_switch(self->id, next->id, YK_THREAD); g_cur = next->id; sem_post(&next->sem); }
   else sem_post(&g_main_sem);      // everybody is done
@@ -139,8 +168,16 @@ static void* trampoline(void* arg) {
 static int hook_yield_mutex_lock(void* m) { return sched_mutex_lock(m); }
 static int hook_yield_mutex_unlock(void* m) { return sched_mutex_unlock(m); }
 
+void sched_begin_scripted(uint64_t seed, const SchedPolicy& p, const std::vector<SchedEntry>& script) {
+  sched_begin(seed, p);
+  g_scripted = true; g_script = script;
+  for (auto& e : script) { if (e.kind == 0) g_script_vol_at[e.at] = e.to; else if (e.kind == 1) g_script_forced[e.at] = e.to; else g_script_wake[e.at] = e.to; }
+}
+const std::vector<SchedEntry>& sched_trace() { return g_trace; }
 void sched_begin(uint64_t seed, const SchedPolicy& p) {
-  g_rng = Rng(seed); g_pol = p; g_stats = SchedStats(); g_status = SCHED_OK; g_cur = -1;
+  g_rng = Rng(seed); g_rng_bb = Rng(sim_mix64(seed ^ 0xbb)); g_rng_wake = Rng(sim_mix64(seed ^ 0x3a)); g_pol = p;
+  if (g_dbg) { fclose(g_dbg); g_dbg = nullptr; } if (getenv("SIM_SCHED_LOG")) { static int n; char b[256]; snprintf(b, sizeof b, "%s.%d", getenv("SIM_SCHED_LOG"), n++); g_dbg = fopen(b, "w"); if (getenv("SIM_BB_RANGE")) sscanf(getenv("SIM_BB_RANGE"), "%ld,%ld", &g_dbg_lo, &g_dbg_hi); }
+  g_trace.clear(); g_script.clear(); g_scripted = false; g_forced_n = g_wake_n = 0; g_script_vol_at.clear(); g_script_forced.clear(); g_script_wake.clear(); g_stats = SchedStats(); g_status = SCHED_OK; g_cur = -1;
   for (auto t : g_tasks) { sem_destroy(&t->sem); delete t; }
   g_tasks.clear(); g_mutexes.clear(); g_sems.clear(); g_change_points.clear(); g_bb_change_points.clear(); g_sync_counter = g_bb_decisions = g_rr_counter = 0;
   sem_init(&g_main_sem, 0, 0);
@@ -165,7 +202,7 @@ int sched_spawn(const std::function<void()>& fn) {
 
 SchedStatus sched_run() {
   if (g_tasks.empty()) return SCHED_OK;
-  Task* first = pick(runnable());
+  Task* first = pick_forced(runnable());
   g_cur = first->id; hash_event(-1, first->id, 0);
   sem_post(&first->sem);
   while (sem_wait(&g_main_sem) != 0 && errno == EINTR) {}
@@ -201,7 +238,7 @@ int sched_mutex_unlock(void* m) {
   MutexState& ms = g_mutexes[m];
   self->held.erase(m);
   ms.owner = -1;
-  if (!ms.waiters.empty()) { size_t k = g_rng.below(ms.waiters.size()); int w = ms.waiters[k]; ms.waiters.erase(ms.waiters.begin() + k); ms.owner = w; g_tasks[w]->state = T_RUNNABLE; }
+  if (!ms.waiters.empty()) { size_t k = pick_waiter(ms.waiters.size()); int w = ms.waiters[k]; ms.waiters.erase(ms.waiters.begin() + k); ms.owner = w; g_tasks[w]->state = T_RUNNABLE; }
   self->in_sched = false;
   sched_yield(YK_MUTEX, m);
   return 0;
@@ -229,7 +266,7 @@ int sched_sem_post(void* s) {
   if (!g_active || !self) { errno = ENOSYS; return -1; }
   self->in_sched = true;
   SemState& ss = g_sems[s];
-  if (!ss.waiters.empty()) { size_t k = g_rng.below(ss.waiters.size()); int w = ss.waiters[k]; ss.waiters.erase(ss.waiters.begin() + k); g_tasks[w]->state = T_RUNNABLE; g_tasks[w]->timed_out = false; }
+  if (!ss.waiters.empty()) { size_t k = pick_waiter(ss.waiters.size()); int w = ss.waiters[k]; ss.waiters.erase(ss.waiters.begin() + k); g_tasks[w]->state = T_RUNNABLE; g_tasks[w]->timed_out = false; }
   else ss.count++;
   self->in_sched = false;
   sched_yield(YK_SEM, s);
